@@ -10,11 +10,24 @@ import pytest
 
 HERE = os.path.dirname(os.path.dirname(os.path.abspath(__file__)))
 FILES = sorted(glob.glob(os.path.join(HERE, 'replays', '*.json')))
+# histories that violated a property before a `fix:` commit in /repo: they
+# must hold on the repaired tree (regression tests, no explorer involved)
+FIXED = sorted(glob.glob(os.path.join(HERE, 'tests', 'fixed_replays',
+                                      '*.json')))
 
 
 @pytest.mark.skipif(not FILES, reason='no replay file')
 @pytest.mark.parametrize('path', FILES or ['-'])
 def test_replay(path):
+    prop = json.load(open(path))['property']
+    p = subprocess.run([os.path.join(HERE, 'check'), prop, '--replay', path],
+                       stdout=subprocess.PIPE, stderr=subprocess.STDOUT,
+                       universal_newlines=True)
+    assert p.returncode == 0, p.stdout[-2000:]
+
+
+@pytest.mark.parametrize('path', FIXED)
+def test_fixed_defect_stays_fixed(path):
     prop = json.load(open(path))['property']
     p = subprocess.run([os.path.join(HERE, 'check'), prop, '--replay', path],
                        stdout=subprocess.PIPE, stderr=subprocess.STDOUT,
